@@ -55,6 +55,7 @@ class Prop(object):
                     u.append(('texts', {'first': a, 'second': b, 'max': 4, 'alphabet': red}))
         u.append(('slices', {}))
         u.append(('inputs', {}))
+        u.append(('many', {}))
         u.append(('long', {}))
         u.append(('gpg', {}))
         return u
@@ -296,6 +297,27 @@ class Prop(object):
                 n += 1
                 self._one_text(r, t, dict(case, only=[ti, form]), 'SHA256', None, form)
         r.samples.append({'input_forms': ['bytes', 'bytearray', 'bytearray+encoding', 'file'], 'texts': len(texts)})
+        return r
+
+    def c_many(self, case):
+        """Many of a kind: texts of n lines of each class of the alphabet (n = 1..12, 16, 17, 33, 64, 100, 257) - every one of them escaped, un-escaped
+        and canonicalised like the first; and texts that alternate two classes."""
+        r = Res()
+        case = {k: v for k, v in case.items() if k not in ('text', 'hash')}
+        counts = list(range(1, 13)) + [16, 17, 33, 64, 100, 257]
+        classes = [l for l in LINES if len(l) < 100]
+        n_texts = 0
+        for li, line in enumerate(classes):
+            for n in counts:
+                for eol in ('\n', '\r\n'):
+                    if 'only' in case and case['only'] != [li, n, eol]:
+                        continue
+                    if eol == '\r\n' and n not in (9, 17, 100):
+                        continue
+                    text = eol.join('%s' % line if k % 2 == 0 or li % 3 else line + ' %d' % k for k in range(n)) + (eol if n % 2 else '')
+                    n_texts += 1
+                    self._one_text(r, text, dict(case, only=[li, n, eol]), 'SHA256')
+        r.samples.append({'line_counts': counts, 'classes': len(classes), 'texts': n_texts})
         return r
 
     def c_slices(self, case):
